@@ -949,15 +949,40 @@ theorem src_sinusoid_exact {β : Type} (sin : K → β) (twoPi : K) (freq phase 
   rw [gen_sinusoid, sinusoidNow, mcNow_eq_mcG fieldOps _ _ _ n (fun m s _ _ _ => ⟨_, rfl⟩), mcG_field]
   rfl
 
+/-- **C19.src.13** `TableLookup.__call__` as regenerated from the source — the cycle length, step and start of the
+counter, the modulo `float(len(self))`, and for every position the sample `tbl[int(idx)] * (1. - (idx - int(idx))) +
+tbl[int(ceil(idx)) - total_length] * (idx - int(idx))` with its raising primitives in Python's order of evaluation — is
+`tableCallNow` … -/
+theorem src_table_call_is_model {α : Type} : @ALV.Gen.C19.table_call α = @tableCallNow α := by
+  funext o tbl den freq phase n; exact gen_table_call o tbl den freq phase n
+
+/-- … which is the generic twin `tableCallG` of rounds 3–4 where `int(modulo / step)` raises nothing and `ceil`
+raises nothing when `int()` raises nothing … -/
+theorem src_table_call_eq_G {α : Type} (o : NumOps α) (tbl : List α) (den : α) (freq phase : Arg α) (n : Nat)
+    (hc : ∀ idx i, o.trunc idx = .ok i → ∃ c, o.ceil idx = .ok c)
+    (hm : ∀ m s, o.isZero s = false → ∃ k, o.trunc (o.div m s) = .ok k) :
+    ALV.Gen.C19.table_call o tbl den freq phase n = (tableCallG o tbl den freq phase n).1 := by
+  rw [gen_table_call, tableCallNow_eq_G o tbl den freq phase n hc hm]
+
+/-- … hence, over exact numbers and a non-empty table, the cyclic linear interpolation of the table at the
+unreduced positions (C19.table.1), raising nothing. -/
+theorem src_table_call_eq_spec (tbl : List K) (h : tbl ≠ []) (den : K) (freq phase : Arg K) (n : Nat) :
+    ALV.Gen.C19.table_call fieldOps tbl den freq phase n = (tableSpec tbl den freq phase n, none) := by
+  rw [src_table_call_eq_G fieldOps tbl den freq phase n (fun _ _ _ => ⟨_, rfl⟩) (fun _ _ _ => ⟨_, rfl⟩),
+    tableCallG_field tbl h den freq phase n]
+
+example : ALV.Gen.C19.table_call (fieldOps : NumOps Rat) [0, 10, 20, 30] 1 (.num (3/8)) (.num (1/2)) 4
+    = (tableCallG (fieldOps : NumOps Rat) [0, 10, 20, 30] 1 (.num (3/8)) (.num (1/2)) 4).1 := by decide +kernel
+
 /-- **C19.src.9** the defaults and decorators as written in the source are the documented ones. -/
 theorem src_defaults_are_documented :
     ALV.Gen.C19.defaults = [("modulo_counter", "start", "0.0"), ("modulo_counter", "modulo", "256.0"),
       ("modulo_counter", "step", "1.0"), ("line", "begin", "0.0"), ("line", "end", "1.0"),
       ("line", "finish", "False"), ("ones", "dur", "None"), ("zeros", "dur", "None"), ("impulse", "dur", "None"),
-      ("impulse", "one", "1.0"), ("impulse", "zero", "0.0"), ("sinusoid", "phase", "0.0")] ∧
+      ("impulse", "one", "1.0"), ("impulse", "zero", "0.0"), ("sinusoid", "phase", "0.0"), ("table_call", "phase", "0.0")] ∧
     ALV.Gen.C19.decorators = [("modulo_counter", ["tostream"]), ("line", ["tostream"]), ("fadein", []),
       ("fadeout", []), ("attack", []), ("adsr", ["tostream"]), ("ones", ["tostream"]), ("zeros", ["tostream"]),
-      ("impulse", ["tostream"]), ("sinusoid", ["tostream"])] := by decide
+      ("impulse", ["tostream"]), ("sinusoid", ["tostream"]), ("table_call", [])] := by decide
 
 -- the regenerated definitions run: fast path with the batch boundary crossed, start a stream, …
 example : ALV.Gen.C19.modulo_counter (fieldOps : NumOps Rat) (.num 1) (.num 5) (.num 2) 6 = ([1, 3, 0, 2, 4, 1], none) ∧
